@@ -141,6 +141,42 @@ def charset_write_case(ctx, cs, seed):
         ctx.fail('written bytes conformant', f'charset-write:{type(exc).__name__}', case, f'{type(exc).__name__}: {exc}')
 
 
+def big_track_file_modes(ctx, seed):
+    """A track chunk beyond 64 KiB written through real file objects in different modes."""
+    import os
+    import tempfile
+    import mido
+    rng = random.Random(seed)
+    mid = MidiFile(type=1)
+    tr = mido.MidiTrack()
+    for i in range(30000):
+        tr.append(mido.Message('note_on', note=i % 128, velocity=(i // 128) % 128, time=i % 3))
+        if i % 500 == 0:
+            tr.append(mido.Message('sysex', data=tuple(range(100)), time=1))
+    mid.tracks.append(tr)
+    mid.tracks.append(mido.MidiTrack([mido.Message('program_change', program=5, time=7)]))
+    ref = io.BytesIO()
+    mid.save(file=ref)
+    want = smf.decode_file(ref.getvalue())
+    ctx.check('written bytes conformant', not want['flags'] and len(ref.getvalue()) > 70000, 'big-track-nonconformant',
+              {'kind': 'big-track', 'mode': 'BytesIO'}, want['flags'][:3])
+    for mode in ('wb', 'ab', 'a+b', 'w+b', 'r+b'):
+        fd, path = tempfile.mkstemp(suffix='.mid', prefix='vmon-c08-')
+        os.close(fd)
+        case = {'kind': 'big-track', 'mode': mode}
+        try:
+            with open(path, mode) as f:
+                mid.save(file=f)
+            with open(path, 'rb') as f:
+                b = f.read()
+            ctx.check('written bytes conformant', b == ref.getvalue(), f'big-track-differs:{mode}', case,
+                      {'len': len(b), 'want_len': len(ref.getvalue()), 'flags': smf.decode_file(b)['flags'][:3] if b[:4] == b'MThd' else 'no header'})
+        except Exception as exc:
+            ctx.fail('written bytes conformant', f'big-track:{type(exc).__name__}:{mode}', case, repr(exc))
+        finally:
+            os.remove(path)
+
+
 def first_diff(got, want):
     if len(got) != len(want):
         return {'tracks_got': len(got), 'tracks_want': len(want)}
@@ -262,6 +298,15 @@ def run(ctx):
             ctx.nontrivial(('w', seed))
         n += 1
     ctx.extra('files_written_and_decoded', nw)
+    if ctx.shard == 9 % ctx.nshards:
+        big_track_file_modes(ctx, f'{ctx.seed}:big')
+        ctx.nontrivial(('big-track',))
+        n += 1
+    if ctx.shard == 10 % ctx.nshards:
+        from .. import customspec
+        customspec.scenario(ctx, 'alternative encoding loads to the event list', 'alternative encoding loads to the event list',
+                            'decoded events == in-memory events')
+        n += 1
     for ci, cs in enumerate(('utf-8', 'utf-16', 'shift_jis', 'cp1252', 'utf-16-le', 'latin1', 'ascii', 'koi8-r')):
         if ci % ctx.nshards == ctx.shard:
             charset_write_case(ctx, cs, f'{ctx.seed}:{cs}')
@@ -283,7 +328,9 @@ def run(ctx):
 
 
 def replay(ctx, case):
-    if case['kind'] == 'charset-write':
+    if case['kind'] == 'big-track':
+        big_track_file_modes(ctx, 'replay')
+    elif case['kind'] == 'charset-write':
         charset_write_case(ctx, case['charset'], case['seed'])
     elif case['kind'] == 'write':
         write_case(ctx, case['seed'])
